@@ -147,7 +147,16 @@ func p1(w *World, r *Report, reach *Reach, scope []*ssa.Function) {
 		}
 		if nPanic > 0 {
 			key := name + ":panic"
-			if why, ok := c09PanicExceptions[key]; ok {
+			// a function literal belongs to the function that contains it (a fail-stop
+			// written as a local helper closure is the same construct)
+			outer := fn
+			for outer.Parent() != nil {
+				outer = outer.Parent()
+			}
+			if why, ok := c09PanicExceptions[w.FName(outer)+":panic"]; ok {
+				if outer != fn {
+					key = w.FName(outer) + ":panic"
+				}
 				r.OK("P-1", key, "explicit panic excepted: "+why, sites...)
 			} else if w.rewardHeightPanics(fn) {
 				// keyed by what is tested, not by where: the reward record's height against the block height
@@ -1329,6 +1338,14 @@ func p4(w *World, r *Report, reach *Reach, scope []*ssa.Function) {
 						continue
 					}
 				}
+				// the comma-ok convention: the callee hands back nil only together with
+				// `false`, and the dereference sits where that flag is known to be true
+				if res.Len() > 1 && isBoolType(res.At(res.Len()-1).Type()) {
+					if okV := extractOf(call, res.Len()-1); okV != nil && w.nilOnlyWithFalse(callees) && w.boolTestAt(okV, blk) == 1 {
+						r.OK("P-4", key, "dereference where the callee's ok flag is true; the callee returns nil only together with false", site(w, d))
+						continue
+					}
+				}
 				if why, ok := w.nilException(exKey, call); ok {
 					r.OK("P-4", key, "excepted: "+why, site(w, d))
 					continue
@@ -1447,6 +1464,74 @@ func (w *World) nilOnlyWithErr(callees []*ssa.Function) bool {
 		}
 	}
 	return true
+}
+
+// nilOnlyWithFalse: every return of the callees whose first result may be nil has
+// the constant false as its last (boolean) result.
+func (w *World) nilOnlyWithFalse(callees []*ssa.Function) bool {
+	n := 0
+	for _, fn := range callees {
+		if !w.InModule(fn) || fn.Blocks == nil {
+			continue
+		}
+		for _, b := range fn.Blocks {
+			ret, ok := lastInstr(b).(*ssa.Return)
+			if !ok || len(ret.Results) < 2 || b == fn.Recover {
+				continue
+			}
+			n++
+			if w.valueMayBeNil(retResult(ret, 0), ret.Block(), map[*ssa.Function]bool{fn: true}, 0) {
+				// the result of a getter that returns nil only with an error, handed on
+				// where that error is nil
+				if ex, isE := stripConv(retResult(ret, 0)).(*ssa.Extract); isE && ex.Index == 0 {
+					if c2, isC2 := ex.Tuple.(*ssa.Call); isC2 {
+						if ee := extractOf(c2, c2.Common().Signature().Results().Len()-1); ee != nil && isErrorType(ee.Type()) && w.nilTestAt(ee, ret.Block()) == -1 {
+							inner := w.Callees(c2)
+							if w.nilOnlyWithErr(inner) {
+								continue
+							}
+						}
+					}
+				}
+				c, isC := retResult(ret, len(ret.Results)-1).(*ssa.Const)
+				if !isC || c.Value == nil || c.Value.Kind() != constant.Bool || constant.BoolVal(c.Value) {
+					return false
+				}
+			}
+		}
+	}
+	return n > 0
+}
+
+// boolTestAt: block p is entered only where the boolean v is true (+1) / false (-1); 0 unknown.
+func (w *World) boolTestAt(v ssa.Value, p *ssa.BasicBlock) int {
+	for _, b := range p.Parent().Blocks {
+		ifi, ok := lastInstr(b).(*ssa.If)
+		if !ok {
+			continue
+		}
+		c := ifi.Cond
+		neg := false
+		for {
+			if u, isU := c.(*ssa.UnOp); isU && u.Op == token.NOT {
+				c, neg = u.X, !neg
+				continue
+			}
+			break
+		}
+		if !sameValue(c, v) {
+			continue
+		}
+		e := condEdge(ifi, p)
+		if e == 0 {
+			continue
+		}
+		if (e == 1) != neg {
+			return 1
+		}
+		return -1
+	}
+	return 0
 }
 
 // derefsThroughPhis: dereferences of v or of phis v flows into (one level).
